@@ -75,8 +75,15 @@ class PrinterTransactionContext(AbstractPrinter):  # pylint: disable=too-few-pub
         filename = dest / filename
         function = list(self.teal.functions.values())[0]
 
+        # the function has its own copy of the contract's main blocks: find its blocks using the block id.
+        function_blocks = {bi.idx: bi for bi in function.blocks}
+
         def get_info(bb: "BasicBlock") -> List[str]:
             # NOTE: use the first function for now as `init_tealer_from_single_contract` uses entire contract as single function.
+            if bb.idx not in function_blocks:
+                # block of a subroutine which is not called by the function.
+                return []
+            bb = function_blocks[bb.idx]
             group_indices_str = self._repr_num_list(function.transaction_context(bb).group_indices)
             group_sizes_str = self._repr_num_list(function.transaction_context(bb).group_sizes)
             return [f"GroupIndex: {group_indices_str}", f"GroupSize: {group_sizes_str}"]
